@@ -88,17 +88,16 @@ def showObs (o : Except Err (Nat × Rat) × Vec Rat) : String :=
 
 def ip : Vec Rat → Vec Rat → Rat := stdIp
 
-def cgStep (prm : CG.Params Rat) (w : CG.Work Rat) (c : Call) : String × CG.Work Rat :=
-  let r := CG.run prm ip rsqrt machEps c.A c.prec.apply w c.f c.x0
-  (showObs r.obs, r.ws)
+def Call.toModel (c : Call) : Solver.Call Rat := ⟨c.A, c.prec.apply, c.f, c.x0⟩
 
-def bicgstabStep (prm : BiCGStab.Params Rat) (w : BiCGStab.Work Rat) (c : Call) : String × BiCGStab.Work Rat :=
-  let r := BiCGStab.run prm ip rsqrt machEps c.A c.prec.apply w c.f c.x0
-  (showObs r.obs, r.ws)
+/-- the model's step function on protocol calls, printed -/
+def strStep {W} (step : W → Solver.Call Rat → Obs Rat × W) (w : W) (c : Call) : String × W :=
+  let r := step w c.toModel
+  (showObs r.1, r.2)
 
-def richardsonStep (prm : Richardson.Params Rat) (w : Richardson.Work Rat) (c : Call) : String × Richardson.Work Rat :=
-  let r := Richardson.run prm ip rsqrt machEps c.A c.prec.apply w c.f c.x0
-  (showObs r.obs, r.ws)
+def cgStep (prm : CG.Params Rat) := strStep (CG.call prm ip rsqrt machEps)
+def bicgstabStep (prm : BiCGStab.Params Rat) := strStep (BiCGStab.call prm ip rsqrt machEps)
+def richardsonStep (prm : Richardson.Params Rat) := strStep (Richardson.call prm ip rsqrt machEps)
 
 def pBiCGStabPrm : P (BiCGStab.Params Rat) := do
   let side ← pSide; let maxiter ← pNat; let tol ← pRat; let abstol ← pRat; let ca ← pBool; let ns ← pBool
